@@ -24,7 +24,7 @@ def merge_events_by_keys(events, keys) -> List[Event]:
                 # Needed for when the value is a list, such as for categories
                 if isinstance(val, list):
                     val = tuple(val)
-                composite_key = composite_key + (val,)
+                composite_key = composite_key + ((key, val),)
         if composite_key not in merged_events:
             merged_events[composite_key] = Event(
                 timestamp=event.timestamp, duration=event.duration, data={}
